@@ -635,7 +635,7 @@ func (e *env) main(inClose, closeReturned *bool) {
 	}
 	for _, sc := range p.Scanners {
 		h := &simrt.Handle{ID: sc.ID, Alias: sc.ID, C: ctx}
-		s := simrt.NewTagScanner(h, sc.Tag, sc.NodeType)
+		s := simrt.NewTagScanner(h, sc.Tag, sc.NodeType, sc.Handler)
 		e.scans[sc.ID] = s
 		comps = append(comps, s)
 		compIDs = append(compIDs, sc.ID)
